@@ -534,8 +534,10 @@ impl MigrationState {
             // the SCANNED tip — deep enough that the checkpoint proved against is reorg-stable
             // (see the constant). The scanned target is `tip + 1`, so `tip - boundary >= DEPTH`
             // is `boundary + DEPTH < scanned`.
+            // (Saturating: a boundary within `PROVABLE_ANCHOR_DEPTH` of `u32::MAX` can never
+            // settle below any representable target, which is what the saturated sum says.)
             Some(boundary) => {
-                u32::from(boundary) + scheduling::PROVABLE_ANCHOR_DEPTH
+                u32::from(boundary).saturating_add(scheduling::PROVABLE_ANCHOR_DEPTH)
                     < u32::from(targets.scanned())
             }
             // A preparation: prove-ready once its schedule is due, at the served target. It
